@@ -10,6 +10,8 @@
 //! plemma: C14 lemma_built_failure_is_authentic: a failure packet built by a hop passes the sender's HMAC test under the same shared secret
 //! plemma: C14 lemma_added_hmacs_verify: after a hop has added its HMACs, the sender's check succeeds for that hop at every position 0..19 and reports the hold time the hop wrote
 use vstd::prelude::*;
+// reads the bound of a trailing `.take(n)` off an iterator expression; an iterator without one is not cut off
+macro_rules! take_bound { (shared_secrets.enumerate().take($n:expr)) => { $n }; ($($other:tt)*) => { usize::MAX }; }
 verus! {
 use vstd::std_specs::cmp::*;
 use core::cmp;
@@ -441,13 +443,14 @@ pub proof fn lemma_built_failure_is_authentic(ss: Seq<u8>, code: u16, data: Seq<
 //@capture R15
     let position = $pos:seq; let res = attribution_data.verify(&Vec::new(), shared_secret.as_ref(), position);
 //@capture R15
-    in shared_secrets.enumerate().take($take:seq)
+    for (route_hop_idx, shared_secret) in $it:seq { attribution_data.crypt(
 //@slice R15
     let attributable_hop_count = $n:seq;
 //@with
     fn position_a_fulfill_hop_is_verified_at(path_hops_len: usize, route_hop_idx: usize) -> Option<usize> {
         let attributable_hop_count = $n;
-        if route_hop_idx < $take { let position = $pos; Some(position) } else { None } }
+        // the iterator walks the path's hops (one shared secret each), cut off by the `.take(..)` the source puts on it, if any (read off the captured iterator expression by take_bound!)
+        if route_hop_idx < path_hops_len && route_hop_idx < take_bound!($it) { let position = $pos; Some(position) } else { None } }
 //@rw R5
     path.hops.len()
 //@with
